@@ -296,6 +296,20 @@ def run(chk):
         chk.disagreements_checked += 1
         for obs, what in projrun.compare(r, m, OBS)[:1]:
             chk.fail_disagree(f"{obs}: {what} (mutation {p.get('_mutation')})", {"project": p})
+    # valid projects whose TASKS fail (a command exits 1 or is killed by a signal; one or several targets with -m / -k N): laze reports
+    # that with exit status 1 — not with a crash, and not with a status that counts the failures (2 is the usage-error status of the
+    # command line parser, 256 failures would wrap to 0)
+    from . import c16
+    tsc = [c16.directed_scenario(chk.seed + 150, i) for i in range(60 if chk.tier == "quick" else 1500)]
+    for sc, step in common.parallel_map(c16.worker, tsc):
+        chk.evaluations += 1
+        chk.count("task-scenario:rc%s" % step["rc"])
+        m = step.get("model")
+        if step["rc"] not in (0, 1):
+            chk.fail_oracle("crash:task-run-status", f"{step['inv']}: a run whose tasks fail exits with {step['rc']} ({(step.get('stderr') or '')[-160:]!r}); "
+                            "failures are reported with status 1", {"scenario": sc})
+        elif m is not None and "ok" in m and m["ok"]["rc"] != step["rc"]:
+            chk.fail_disagree(f"{step['inv']}: impl rc {step['rc']} / model rc {m['ok']['rc']}", {"scenario": sc})
     # a known finding, reproduced on every run: a dependency chain deeper than the main-thread stack allows
     n_chain = 30000
     mods = [{"name": f"m{i}", "depends": [f"m{i + 1}"]} for i in range(n_chain)] + [{"name": f"m{n_chain}"}]
